@@ -122,7 +122,7 @@ def run(res, tier, seed):
     mc_tla = os.path.join(vlib.SPEC, "MC_SigCheck.tla")
     # ---- D
     for cfg, az in MC_CFGS + (MC_THOROUGH if thorough else []):
-        st = vlib.mc(mc_tla, os.path.join(vlib.SPEC, cfg + ".cfg"), wd, workers=8, allow_zero=az, timeout=1500)
+        st = vlib.mc(mc_tla, os.path.join(vlib.SPEC, cfg + ".cfg"), wd, workers=6, allow_zero=az, timeout=1500)
         res.add_mc(cfg, st)
     # witnesses must be reachable (negated invariants are expected to be violated)
     for cfg, inv in [("MC_SigCheck_witness1", "NotUnsignedBitsFree"), ("MC_SigCheck_witness2", "NotCachedSecure")]:
@@ -158,7 +158,7 @@ def run(res, tier, seed):
     for (nm, defs, maxcalls, maxlog, maxvar, ncs) in (GEN_THOROUGH if thorough else GEN_QUICK):
         tla_p, cfg_p = vlib.wrapper(wd, "G_" + nm, "Gen_SigCheck", defs,
                                     [l.format(maxcalls=maxcalls, maxlog=maxlog, maxvar=maxvar, ncs=ncs) for l in GEN_CFG])
-        cases, st = vlib.gen(tla_p, cfg_p, wd, workers=8, timeout=1500)
+        cases, st = vlib.gen(tla_p, cfg_p, wd, workers=6, timeout=1500)
         if not cases:
             raise vlib.ToolError(f"generator {nm} produced no histories")
         vlib.log(f"[c06] G_{nm}: {len(cases)} histories")
@@ -222,7 +222,7 @@ def run(res, tier, seed):
                         ncalls += 1
     mism, tst = vlib.trace_check_parallel(os.path.join(vlib.SPEC, "Trace_SigCheck.tla"),
                                           os.path.join(vlib.SPEC, "Trace_SigCheck.cfg"), wd, all_trace,
-                                          shards=8, timeout=3000, heap="4g")
+                                          shards=6, timeout=3000, heap="4g")
     res.traces += counts["cases"]
     res.evaluations += counts["calls"]
     res.extra["trace_calls_validated"] = ncalls
